@@ -27,6 +27,38 @@ Theorem C12_paginate_satisfies_spec : forall (css : bool) (d : doc),
 Proof. exact paginate_satisfies_spec. Qed.
 Print Assumptions C12_paginate_satisfies_spec.
 
+(* the predicates one by one, as named in the property text (projections of the above) *)
+Theorem C12_geometry_ok : forall css d,
+  Forall (fun p => pg_geom p = page_box_geometry (d_rules d) (pg_type p)) (paginate css d).
+Proof. exact paginate_geometry_ok. Qed.
+Print Assumptions C12_geometry_ok.
+
+Theorem C12_avoid_honoured_if_possible : forall (css : bool) (d : doc),
+  let us := lin_flows (d_flow d) in let n := length us in
+  Forall (fun p : pstate * nat * nat => let '(st, s, e) := p in
+    e < n -> forced_at css us e = false -> avoid_ok us e = false ->
+    forall b c, is_cap n (forced_at css us) s c -> s < b -> b <= c ->
+      fits_doc css d us st s b = true -> ~ legal_break n (forced_at css us) (allowed_at us) s b)
+    (paginate_ranges css d).
+Proof. exact paginate_avoid_honoured_if_possible. Qed.
+Print Assumptions C12_avoid_honoured_if_possible.
+
+Theorem C12_orphans_widows_ok_if_possible : forall (css : bool) (d : doc),
+  let us := lin_flows (d_flow d) in let n := length us in
+  Forall (fun p : pstate * nat * nat => let '(st, s, e) := p in
+    e < n -> forced_at css us e = false -> ow_ok us s e = false ->
+    forall b c, is_cap n (forced_at css us) s c -> s < b -> b <= c ->
+      fits_doc css d us st s b = true -> ~ legal_break n (forced_at css us) (allowed_at us) s b)
+    (paginate_ranges css d).
+Proof. exact paginate_orphans_widows_ok_if_possible. Qed.
+Print Assumptions C12_orphans_widows_ok_if_possible.
+
+(* flows with non-negative metrics and non-empty blocks linearise to well-formed units
+   (the hypothesis of the uniqueness theorem; Check/C12.v skips anything else) *)
+Theorem C12_wf_flow_units : forall fs, forallb wf_flow fs = true -> Forall wf_unit (lin_flows fs).
+Proof. exact wf_flows_units. Qed.
+Print Assumptions C12_wf_flow_units.
+
 (* --- uniqueness (partial: licenses equality with the model on this class only).
    Full statement: the predicates determine the pagination whenever a conforming
    break exists at every page start of *some* pagination satisfying them. *)
